@@ -7,6 +7,7 @@ go build -o bin/vtool ./cmd/vtool || exit 2
 S=$(mktemp -d /var/tmp/verif-setup-XXXXXX)
 bin/vtool instrument /repo "$S/gen" >/dev/null || exit 2
 go build -overlay "$S/gen/overlay.json" -o "$S/mc" ./cmd/mc || exit 2
-[ -d cmd/seq ] && { go build -o "$S/seq" ./cmd/seq || exit 2; }
+go build -o "$S/seq" ./cmd/seq || exit 2
+go build -race -tags vsreal -o "$S/mcreal" ./cmd/mcreal || exit 2
 rm -rf "$S"
 echo setup ok
